@@ -242,7 +242,7 @@ def main(chk):
             if isinstance(got["bound"], str) and want is None:
                 return              # the value cannot be bound on this backend either (outside the type's domain here)
             for m in ("literal_binds", "literal_execute"):
-                if isinstance(got[m], str) and got[m].startswith("CompileError"):
+                if isinstance(got[m], str) and "CompileError" in got[m]:
                     continue        # refusing to render a literal is always safe
                 if not _same(got[m], got["bound"]):
                     chk.violation(dict(sig, action=m, form=form, kind="rows_differ_from_bound"),
